@@ -65,6 +65,17 @@ pub mod prelude {
     pub assume_specification<T: ?Sized, A: std::alloc::Allocator>[ <Box<T, A> as AsRef<T>>::as_ref ](b: &Box<T, A>) -> (r: &T)
         ensures r == &**b;
 
+    /// A-std-extend: the elements an `IntoIterator` yields (uninterpreted; pinned down for `&Vec<T>` below)
+    pub uninterp spec fn iter_elems<T, I>(it: I) -> Seq<T>;
+
+    pub assume_specification<'a, T: Copy + 'a, A: std::alloc::Allocator, I: IntoIterator<Item = &'a T>>[ <Vec<T, A> as Extend<&'a T>>::extend::<I> ](v: &mut Vec<T, A>, iter: I)
+        ensures final(v)@ == old(v)@ + iter_elems::<T, I>(iter);
+
+    #[verifier::external_body]
+    pub broadcast proof fn axiom_iter_elems_vec_ref<T>(v: &Vec<T>)
+        ensures #[trigger] iter_elems::<T, &Vec<T>>(v) == v@,
+    {}
+
     #[verifier::external_trait_specification]
     pub trait ExFromStr: Sized {
         type ExternalTraitSpecificationFor: std::str::FromStr;
@@ -213,6 +224,40 @@ pub mod spec {
         &&& post.items == pre.items
         &&& forall|i: int| 0 <= i < pre.item_state.len() && !present(#[trigger] pre.item_state[i]) ==> !present(post.item_state[i])
         &&& comp_inert(pre, post)
+    }
+
+    /// short names the tokenizer has to know about (C02: clusters `-abc`, attached values `-nvalue`): every flag / argument
+    /// item reachable through any wrapper contributes its short names, in tree order (flags, arguments)
+    pub open spec fn shorts_of(m: Meta) -> (Seq<char>, Seq<char>)
+        decreases m, 1int,
+    {
+        match m {
+            Meta::And(xs) | Meta::Or(xs) => shorts_upto(m, xs.len() as int),
+            Meta::Item(i) => match *i {
+                Item::Any { .. } | Item::Positional { .. } => (Seq::empty(), Seq::empty()),
+                Item::Command { meta, .. } => shorts_of(*meta),
+                Item::Flag { shorts, .. } => (shorts@, Seq::empty()),
+                Item::Argument { shorts, .. } => (Seq::empty(), shorts@),
+            },
+            Meta::CustomUsage(x, _) | Meta::Required(x) | Meta::Optional(x) | Meta::Adjacent(x) | Meta::Subsection(x, _) | Meta::Suffix(x, _) | Meta::Many(x) => shorts_of(*x),
+            // `strict` exists on positional items only, which have no short names
+            Meta::Skip | Meta::Strict(_) => (Seq::empty(), Seq::empty()),
+        }
+    }
+    pub open spec fn meta_children(m: Meta) -> Seq<Meta> {
+        match m { Meta::And(xs) | Meta::Or(xs) => xs@, _ => Seq::empty() }
+    }
+    /// short names of the first n children of an And / Or node
+    pub open spec fn shorts_upto(m: Meta, n: int) -> (Seq<char>, Seq<char>)
+        decreases m, 0int, n,
+        when m is And || m is Or
+    {
+        let xs = meta_children(m);
+        if n <= 0 || n > xs.len() { (Seq::empty(), Seq::empty()) } else {
+            let a = shorts_upto(m, n - 1);
+            let b = shorts_of(xs[n - 1]);
+            (a.0 + b.0, a.1 + b.1)
+        }
     }
 
     /// both ledgers still have item j
@@ -684,7 +729,7 @@ pub mod lemmas {
 pub mod real {
     use super::spec::*;
     use super::lemmas::*;
-    broadcast use {super::lemmas::ledger, super::prelude::axiom_peq_char};
+    broadcast use {super::lemmas::ledger, super::prelude::axiom_peq_char, super::prelude::axiom_iter_elems_vec_ref};
     use super::*;
     use super::prelude::*;
 
@@ -1900,6 +1945,24 @@ impl State {
             decreases self.args.scope.end as int + 1 - self.cur as int,
 //@@ end
 
+
+
+// ---- short names for cluster disambiguation (C02)
+//@@ fn src/meta.rs | impl Meta | fn collect_shorts
+//@@ unit meta.Meta.collect_shorts tags=C02,C04 loops=1
+//@@ spec
+        ensures
+            final(flags)@ == old(flags)@ + shorts_of(*self).0, // #every_reachable_flag_contributes_its_short_names
+            final(args)@ == old(args)@ + shorts_of(*self).1, // #every_reachable_argument_contributes_its_short_names
+        decreases self,
+//@@ insert after 1 `for x in`
+verif_it:
+//@@ loop 1
+                    invariant
+                        (*self is And || *self is Or) && meta_children(*self) == xs@,
+                        flags@ == old(flags)@ + shorts_upto(*self, verif_it.index@ as int).0,
+                        args@ == old(args)@ + shorts_upto(*self, verif_it.index@ as int).1,
+//@@ end
 
 // ---- adjacent groups (C19)
 //@@ type src/structs.rs | struct ParseAdjacent
